@@ -80,15 +80,19 @@ LEVEL_TEXT = ("proof for the linearised problem, exploration beyond it: Lean 4 t
               "(C07_pe_ori_not_regularised; C07_circle_rotation_of_project_equations, rows regular and no wrap still assumed); "
               "round 9: the mirror clause is stated on the pass project_equations() itself executes (two runs of "
               "Lin.passFrom over the regenerated linearisation on a network and its mirrored description: same numbering, A' = D_s A D_t, "
-              "b' = D_s b, solution carried over; for the outputs of PE.projectEquations only _partial: "
-              "C07_mirror_of_project_equations_partial keeps a hypothesis saying that singular_coords treats the two calls alike "
-              "(round 10: reduced to DegenInv, the numeric colinearity test on the two homogenised matrices, NOT proved; given it and "
-              "regular observations both calls revise, number, remove and regularise alike, C07_mirror_same_course), and has no "
-              "evaluated witness), the weights D_s P D_s are derived cluster "
+              "b' = D_s b, solution carried over; for the outputs of PE.projectEquations FULL since round 13: "
+              "C07_mirror_of_project_equations (hypotheses: every observation regular at the approximate coordinates, every cluster a "
+              "well-formed band matrix of the dimension of its observation list, both calls return; inside, no angular right-hand side "
+              "exactly at +200 gon) - both calls revise, number, remove and regularise alike at any depth of the singular_coords "
+              "recursion, because the numeric colinearity test reads the Gram matrix of the homogenised matrix = the normal matrix "
+              "A^T P A, which the mirror conjugates by signs (C07_degen_inv; C07_degen_test_mirror, C07_hom_gram_is_normal_matrix); "
+              "the form with the hypothesis DegenInv is kept as C07_mirror_of_project_equations_partial; no evaluated witness: the only "
+              "evaluated PE.Net is a levelling network, which has no y), the weights D_s P D_s are derived cluster "
               "by cluster from the regenerated covariance loop of "
               "change_y_signs_for_inconsistent_system_ (Gen/YSign.lean, C10's translator; the hand model of the input stream is proved "
               "equal to it, C07_flip_is_generated; C07_mirror_weight_block per cluster, C07_mirror_sigma for the covariance matrix "
-              "Sigma of a whole assembled problem with conjugated clusters - not yet instantiated at the two outputs of projectEquations), "
+              "Sigma of a whole assembled problem with conjugated clusters, instantiated at the two outputs of projectEquations with the row "
+              "signs of the pass theorem: C07_row_sign_link, C07_mirror_sigma_of_project_equations_full), "
               "xNorthAngle() of the mirrored system from the regenerated table (integer table only, the full circle between 400 - lh "
               "and -lh not composed with the pass theorem; x<->y exchange of the axes: table only), renaming lifted to the whole pass "
               "(identical rows and solution), the matrix of the older *_assembled theorems identified with the executed pass's "
